@@ -16,7 +16,8 @@ RULE = ("suite pdu: every request class with get_response_pdu_size, EVERY quanti
         "classes x quantities around boundaries x {normal, exception} replies: the real ModbusTransactionManager "
         "runs against a scripted byte-stream transport holding the frame that the server-side framer built; "
         "observed = the sizes passed to recv.  non-trivial = the class predicts and the quantity is legal; "
-        "distinct = distinct Coq case terms.  suite tcp: the same request set through the real ModbusTcpClient "
+        "distinct = distinct Coq case terms.  pdu window cases: blocks with base 1, 4, 40 and FC1/2/3/4/23 windows "
+        "inside, touching and past the block end.  suite tcp: the same request set through the real ModbusTcpClient "
         "(select + socket.recv) over a socketpair, unit ids 5 and 200; diagnostic classes are enumerated by "
         "introspection of the real module")
 TRUSTED = [
@@ -45,6 +46,15 @@ def optz(v):
 
 
 # ----------------------------------------------------------------------------- real classes
+
+def mk_based_context(base, size):
+    """all four blocks start at a NON-ZERO base address and hold `size` cells"""
+    from pymodbus.datastore import ModbusSlaveContext, ModbusSequentialDataBlock
+    return ModbusSlaveContext(di=ModbusSequentialDataBlock(base, [1, 0, 1, 1] * (size // 4) + [1] * (size % 4)),
+                              co=ModbusSequentialDataBlock(base, [0, 1] * (size // 2) + [1] * (size % 2)),
+                              hr=ModbusSequentialDataBlock(base, [0x1234] * size),
+                              ir=ModbusSequentialDataBlock(base, [0x0102] * size), zero_mode=True)
+
 
 def mk_context(n=2100):
     from pymodbus.datastore import ModbusSlaveContext, ModbusSequentialDataBlock
@@ -162,8 +172,8 @@ def server_response(req, ctx, via_decoder=True):
     return rsp
 
 
-def pdu_case(q, ctx, label):
-    qterm, req = build(q)
+def pdu_case(q, ctx, label, addr=0, ctxinfo=None):
+    qterm, req = build(q, addr)
     cls = type(req).__name__
     obs = "{| a_count := %s; a_read_count := %s; a_message := %s |}" % (
         z(intattr(req, "count")), z(intattr(req, "read_count")), msg_shape(req))
@@ -172,9 +182,11 @@ def pdu_case(q, ctx, label):
     rsp = server_response(req, ctx)
     reset_globals()
     actual = (1 + len(rsp.encode())) if rsp.should_respond else None
-    term = ("{| pc_q := %s; pc_cls := %s; pc_obs := %s; pc_pred := %s; pc_msg_after := %s; pc_actual := %s |}"
-            % (qterm, string(cls), obs, optz(pred), after, optz(actual)))
-    desc = {"q": list(q), "cls": cls, "predicted": pred, "actual_pdu_len": actual, "response": type(rsp).__name__}
+    normal = type(rsp).__name__ != "ExceptionResponse"
+    term = ("{| pc_q := %s; pc_cls := %s; pc_obs := %s; pc_pred := %s; pc_msg_after := %s; pc_actual := %s; pc_normal := %s |}"
+            % (qterm, string(cls), obs, optz(pred), after, optz(actual), boolean(normal)))
+    desc = {"q": list(q), "cls": cls, "predicted": pred, "actual_pdu_len": actual, "response": type(rsp).__name__,
+            "addr": addr, "context": ctxinfo}
     return Case(term, desc, kind=label, nontrivial=pred is not None and type(rsp).__name__ != "ExceptionResponse")
 
 
@@ -203,9 +215,28 @@ def pdu_requests(tier):
     return qs
 
 
+def window_cases():
+    """blocks with a non-zero base address; read windows inside, touching and past the block end
+    (and before its start): whenever the server answers normally, prediction = 1 + len(encoded response)"""
+    cases = []
+    for base in (1, 4, 40):
+        for size in (10, 64):
+            ctx = mk_based_context(base, size)
+            end = base + size                      # first address behind the block
+            for kind in ("QReadCoils", "QReadDiscreteInputs", "QReadHolding", "QReadInput", "QReadWriteRegs"):
+                for count in (1, 2, 7, 8, 9, size):
+                    starts = {base, base + 1, end - count - 1, end - count, end - count + 1, end - count + base,
+                              end - count + base + 1, end - 1, end, base - 1, 0}
+                    for addr in sorted(a for a in starts if a >= 0):
+                        cases.append(pdu_case((kind, count), ctx, "window-base%d" % base, addr,
+                                              {"base": base, "size": size}))
+    return cases
+
+
 def suite_pdu(tier):
     ctx = mk_context()
     cases = [pdu_case(q, ctx, label) for q, label in pdu_requests(tier)]
+    cases += window_cases()
     return Suite("pdu", IMPORTS, "chk_pdu", cases, shard=400)
 
 
@@ -508,7 +539,9 @@ def replay_case(suite, desc):
     print(json.dumps(desc)[:1500])
     ctx = mk_context()
     if suite == "pdu":
-        c = pdu_case(tuple(desc["q"]), ctx, "replay")
+        ci = desc.get("context")
+        c = pdu_case(tuple(desc["q"]), mk_based_context(ci["base"], ci["size"]) if ci else ctx, "replay",
+                     desc.get("addr", 0), ci)
         r = coqrun.eval_cases("C14_replay", IMPORTS, "chk_pdu", [c.term])
     elif desc.get("tcp_client"):
         c = tcp_case(tuple(desc["q"]), ctx, "replay", desc.get("addr", 0), desc.get("fill", 0), desc.get("unit", 5))
